@@ -13,6 +13,15 @@ CLAIMED = {
             "equality of meaning under every assignment, so a mismatch is exactly a violation.",
             "TLC 1.8; harness/proj.py (reads decomposition_dict only); dyadic scalars so PEPit's float arithmetic is exact.",
             "6.6"),
+    "C07": ("TLC model checking of spec/Oracle.tla (code-path transcription of PEPit/function.py oracle bookkeeping; "
+            "invariants I1-I4; deviation switches reproduce the repaired defects as counterexamples) + replay of every "
+            "TLC behaviour on real Function objects + TLC trace validation of the observed tables (OracleTrace.tla)",
+            "All call sequences of bounded length over leaf and composite functions (zero, cancelling and fractional "
+            "weights, equal decompositions as distinct objects) are enumerated by TLC, executed on the real classes, and "
+            "the invariants are evaluated by TLC on the observed sample tables after every call; the observed step is "
+            "also compared with the implementation model (drift).",
+            "TLC 1.8; harness/drv_c07.py projection of list_of_points / stationary list / stored weights; dyadic weights.",
+            "6.7"),
 }
 
 NOT_YET = {}
